@@ -97,12 +97,32 @@ def align(case):
                 b.children = tuple(kids)
                 b.width = xx - x
             else:
+                # a real InlineBlockBox with (optionally) a line of text boxes inside: Box.translate is the real one
                 b = object.__new__(boxes.InlineBlockBox)
                 b.width = Fraction(item[1])
                 b.children = ()
-                b.translate = (lambda bb: (lambda dx=0, dy=0, ignore_floats=False: setattr(bb, 'position_x', bb.position_x + dx)))(b)
+                desc = item[2] if len(item) > 2 else []
+                if desc:
+                    ln = object.__new__(boxes.LineBox)
+                    ln.style = st
+                    ln.position_x = x + Fraction(desc[0])
+                    ln.position_y = Fraction(0)
+                    tkids, xx = [], ln.position_x
+                    for v in desc[1]:
+                        tb = object.__new__(boxes.TextBox)
+                        tb.style = st
+                        tb.text = 'x'
+                        tb.children = ()
+                        tb.width = Fraction(v)
+                        tb.position_x, tb.position_y = xx, Fraction(0)
+                        tkids.append(tb)
+                        xx += tb.width
+                    ln.children = tuple(tkids)
+                    ln.width = xx - ln.position_x
+                    b.children = (ln,)
             b.style = st
             b.position_x = x
+            b.position_y = Fraction(0)
             b.is_in_normal_flow = lambda: True
             return b
         line = object.__new__(boxes.LineBox)
@@ -115,11 +135,12 @@ def align(case):
         line.children = tuple(kids)
         line.width = x
         line.position_x = Fraction(0)
+        line.position_y = Fraction(0)
         off = inline.text_align(None, line, Fraction(case['avail']), case['last'])
 
         def dump(b):
             r = [str(Fraction(b.position_x)), str(Fraction(b.width))]
-            if isinstance(b, (boxes.InlineBox, boxes.LineBox)):
+            if isinstance(b, (boxes.InlineBox, boxes.LineBox, boxes.InlineBlockBox)):
                 return r + [[dump(c) for c in b.children]]
             return r + [str(Fraction(getattr(b, 'justification_spacing', 0)))]
         return [str(Fraction(off)), dump(line)]
@@ -160,15 +181,22 @@ def _dump_inline(box, out, depth):
 
 
 def render_lines(case):
-    """case: dict(html).  Returns for every block container with id starting with 'p' its lines."""
+    """case: dict(html).  Returns every block container that holds line boxes (blocks, anonymous blocks, inline-blocks,
+    table cells ...) with its lines; `main` marks the containers whose element id starts with 'p' (not the
+    inline-blocks inside them); `floats` (same list in every record) = the floated boxes of the page."""
     from tests.testing_utils import render_pages
     from weasyprint.formatting_structure import boxes
     pages = render_pages(case['html'])
     res = []
 
-    def walk(box, page_no):
-        if isinstance(box, boxes.BlockContainerBox) and box.children and isinstance(box.children[0], boxes.LineBox) \
-                and box.element is not None and (box.element.get('id') or '').startswith('p'):
+    def walk(box, page_no, floats, inside_atomic):
+        if box.is_floated():
+            floats.append(dict(x=box.position_x, y=box.position_y, mw=box.margin_width(), mh=box.margin_height(),
+                               side=box.style['float'],
+                               eid=(box.element.get('id') if box.element is not None else None)))
+        atomic = inside_atomic or isinstance(box, boxes.AtomicInlineLevelBox)
+        if isinstance(box, boxes.BlockContainerBox) and box.children and \
+                any(isinstance(c, boxes.LineBox) for c in box.children):
             lines = []
             for ln in box.children:
                 if not isinstance(ln, boxes.LineBox):
@@ -178,11 +206,19 @@ def render_lines(case):
                     _dump_inline(c, items, 0)
                 lines.append(dict(x=ln.position_x, y=ln.position_y, w=ln.width, h=ln.height, text=_text_of(ln),
                                   items=items))
-            res.append(dict(eid=box.element.get('id'), page=page_no, x=box.content_box_x(), y=box.content_box_y(),
-                            w=box.width, h=box.height, lines=lines, anon=False))
+            eid = box.element.get('id') if box.element is not None else None
+            res.append(dict(eid=eid, page=page_no, x=box.content_box_x(), y=box.content_box_y(),
+                            w=box.width, h=box.height, lines=lines, anon=False, cls=type(box).__name__,
+                            main=bool(eid and eid.startswith('p') and not atomic),
+                            indent=box.style['text_indent'].value if hasattr(box.style['text_indent'], 'value') else 0,
+                            direction=box.style['direction'], floats=floats))
         for c in getattr(box, 'children', ()) or ():
-            if not isinstance(c, boxes.LineBox):
-                walk(c, page_no)
+            if isinstance(c, boxes.LineBox):
+                for d in c.descendants():
+                    if isinstance(d, boxes.AtomicInlineLevelBox) or d.is_floated():
+                        walk(d, page_no, floats, inside_atomic or not d.is_floated())
+            else:
+                walk(c, page_no, floats, atomic)
     for i, page in enumerate(pages):
-        walk(page, i)
+        walk(page, i, [], False)
     return res
